@@ -64,8 +64,18 @@ theorem alias_read (name post : Bytes) (k : KeyEvent) (h : ∀ b ∈ name, b ≠
     (hk : aliasKey name = some k) :
     readKey ⟨60 :: (name ++ 62 :: post), false⟩ = (some k, ⟨post, false⟩) := by
   have ht := takeWhile_append_sep name post h
+  have hne : (List.dropWhile notGt (name ++ 62 :: post)).isEmpty = false := by
+    cases hd : List.dropWhile notGt (name ++ 62 :: post) with
+    | nil =>
+      -- dropping stops at the `>` we appended, so the remainder cannot be empty
+      have h2 := ht.2
+      have hlen : (name ++ 62 :: post).length = (List.takeWhile notGt (name ++ 62 :: post)).length + (List.dropWhile notGt (name ++ 62 :: post)).length := by
+        rw [← List.length_append, List.takeWhile_append_dropWhile]
+      rw [ht.1, hd] at hlen
+      simp at hlen
+    | cons x xs => rfl
   rw [readKey_cons]
-  simp [parseByteAlias, ht.1, ht.2, hk]
+  simp [parseByteAlias, ht.1, ht.2, hk, hne]
 
 theorem decode_lt : decodeOne [60] = some '<' := by decide
 theorem decode_bs : decodeOne [92] = some '\\' := by decide
@@ -76,6 +86,21 @@ theorem non_alias_literal (rest : Bytes) (e : Bool) (h : parseByteAlias rest = n
     readKey ⟨60 :: rest, e⟩ = (some ⟨.char '<', 0⟩, ⟨rest, false⟩) := by
   rw [readKey_cons]
   cases e <;> simp [h, decode_lt] <;> decide
+
+/-- **`<` without a closing `>` in the rest of the argument is a literal `<`**, whatever follows it —
+so `<<G` at the end of an argument reads as `<`, `<`, `G`, exactly as it does in the middle of one.
+(Before the fix the unterminated tail was taken as an alias name: `<G` at the end was the key `G`.) -/
+theorem unterminated_alias_is_literal (rest : Bytes) (e : Bool) (h : ∀ b ∈ rest, b ≠ 62) :
+    readKey ⟨60 :: rest, e⟩ = (some ⟨.char '<', 0⟩, ⟨rest, false⟩) := by
+  apply non_alias_literal
+  have hd : List.dropWhile notGt rest = [] := by
+    induction rest with
+    | nil => rfl
+    | cons b bs ih =>
+      have hb : notGt b = true := by simpa [notGt] using h b (by simp)
+      simp only [List.dropWhile_cons, hb, ↓reduceIte]
+      exact ih (fun x hx => h x (by simp [hx]))
+  simp [parseByteAlias, hd]
 
 /-- After a backslash, `<` is literal whatever follows (even a valid alias name). -/
 theorem escaped_lt_literal (rest : Bytes) :
@@ -230,7 +255,10 @@ theorem collectKey_len (fuel : Nat) (bs : Bytes) (e : Bool) (col : Bytes) (hne :
       · rename_i k rest' heq
         -- alias hit: rest' is a suffix of rest
         split at heq
-        · simp only [parseByteAlias, Option.map_eq_some_iff] at heq
+        · simp only [parseByteAlias] at heq
+          split at heq
+          · exact absurd heq (by simp)
+          simp only [Option.map_eq_some_iff] at heq
           obtain ⟨_, _, h2⟩ := heq
           injection h2 with _ h2
           subst h2
